@@ -74,6 +74,21 @@ PROPS["C10"].update({
     "level_note": "Bounds: <= 4 backing words per vector; rayon variants not compiled; trusted: Kani/CBMC/CaDiCaL and the reference get.",
 })
 
+PROPS["C14"] = {
+    "engine": "kani", "module": "c14", "feature": "c14", "jobs": 12,
+    "functions": ["BitVec::{get,count_ones,iter,iter_ones,iter_zeros,eq,set,fill,flip,reset}", "AtomicBitVec::{set,swap,fill,flip,reset}",
+                  "BitFieldVec::{get,eq,iter_from,unchecked iterators,set,reset,copy,apply_in_place,try_chunks_mut}",
+                  "AtomicBitFieldVec::{set_atomic,reset_atomic}", "Rank9::new / RankSmall::new over dirty storage (see C01)"],
+    "bounds": "3 symbolic words (4 for u8/u16), symbolic length and width; readers: relational (clean vs arbitrary garbage beyond the "
+              "logical length, in the last word and in spare words); writers: one operation, a symbolic probe bit outside the "
+              "documented write set must keep its value; copy for usize with concrete widths 5 (quick) and 63 (thorough)",
+    "outside": "push/resize (they legitimately take over spare storage); rayon variants; selection structures (C02)",
+    "assumptions": ["from_raw_parts pre-states satisfy the documented contract"],
+    "level_text": "Bounded model checking, relational for readers (two executions over storages that agree on the logical contents and "
+                  "differ arbitrarily elsewhere) and frame-style for writers (a symbolic probe bit outside the write set).",
+    "level_note": "Bounds: <= 4 words; trusted: Kani/CBMC/CaDiCaL.",
+}
+
 # Properties not (yet) claimed, with the reason. Entries for properties that
 # gain a check are ignored by tools/gen_manifest.py.
 NOT_APPLICABLE = {
@@ -87,7 +102,6 @@ NOT_APPLICABLE = {
     "C11": "check not built yet in this revision (planned, partial: DESIGN.md §2 C11)",
     "C12": "check not built yet in this revision (planned: DESIGN.md §2 C12)",
     "C13": "check not built yet in this revision (planned: DESIGN.md §2 C13)",
-    "C14": "check not built yet in this revision (planned: DESIGN.md §2 C14)",
     "C15": "mmap/load_full are file I/O and an FFI mmap call; epserde's in-memory (de)serialisation hashes type names and walks a generic reader/writer stack of a dependency: heap- and loop-heavy, beyond a bounded encoding; measured obstacles in DESIGN.md §2 C15",
     "C16": "check not built yet in this revision (planned: DESIGN.md §2 C16, engine E2)",
     "C17": "same entry points and obstacles as C07 (threads, per-key hashing, file-backed stores); build_loop is a private generic method whose retry logic cannot be driven without rewriting the builder",
